@@ -66,7 +66,7 @@ class Spec(DiffSpec):
             yield {"seed": s, "shipped": name, "tap_variation": s, "max_episode_length": 70, "n_ops": 66, "monitors": [], "op_mix": {"step": 0.98, "reset": 0.0, "fault": 0.02}, "first_reset_seed": s % 100000, "io": dict(IO_OFF)}
         for i in range(n):
             s = base_seed * 1000003 + 30000000 + i
-            prof = {"n_green": (1, 3), "n_red": (1, 2), "tight_links": 0.3, "io_on": 0.0, "avoid": ["listen_on_ports"], "action_map_size": (20, 60)}
+            prof = {"n_green": (1, 3), "n_red": (1, 2), "tight_links": 0.3, "io_on": 0.0, "action_map_size": (20, 60)}
             yield {"seed": s, "profile": prof, "n_ops": 30, "monitors": [], "op_mix": {"step": 0.9, "reset": 0.03, "fault": 0.07}, "first_reset_seed": s % 100000}
 
 
